@@ -276,6 +276,14 @@ def run_refill(case, ctx, mon):
     batches = [np.array(s.rand_nums, copy=True)]
     s2 = mk(kind, 2**32 - 1, 15 if kind == "log8" else 1023, 1, 1)
     mon.check(not np.array_equal(s.rand_nums, s2.rand_nums), "two-fresh-sketches-start-from-different-batches")
+    # applications that re-seed NumPy's global generator for reproducibility (or fork) must not get correlated sketches
+    st = np.random.get_state()
+    np.random.seed(12345)
+    g1 = mk(kind, 2**32 - 1, 15 if kind == "log8" else 1023, 1, 1)
+    np.random.seed(12345)
+    g2 = mk(kind, 2**32 - 1, 15 if kind == "log8" else 1023, 1, 1)
+    np.random.set_state(st)
+    mon.check(float(np.mean(np.asarray(g1.rand_nums) == np.asarray(g2.rand_nums))) < 0.01, "sketches-built-after-np.random.seed(s)-draw-different-numbers", kind=kind)
     for r in range(R):
         s.cms[:] = park
         s.rand_ptr = 0
